@@ -140,6 +140,13 @@ func (fswriteStream) Generate(rng *rand.Rand, tier string, emit func(Case)) {
 	for r := 0; r < rounds; r++ {
 		emit(Case{"op": "readers", "name": names[r%2], "millis": 400})
 	}
+	// a second writer (of another Spec name) gets in between every pair of steps of the first: each file must
+	// end up with what its own writer wrote
+	for _, pt := range []string{"marshalled", "created", "written", "closed"} {
+		for _, pair := range [][2]string{{"a.json", "b.json"}, {"a.yaml", "b.yaml"}, {"a.json", "b.yaml"}} {
+			emit(Case{"op": "twowriters", "point": pt, "namea": pair[0], "nameb": pair[1]})
+		}
+	}
 }
 
 func prepareDir(c Case) (dir, name, target string, before []any) {
@@ -260,6 +267,41 @@ func (fswriteStream) Execute(c Case) {
 	defer os.RemoveAll(fswriteRoot)
 	op, _ := c["op"].(string)
 	switch op {
+	case "twowriters":
+		dir := filepath.Join(fswriteRoot, "cdi")
+		_ = os.MkdirAll(dir, 0o755)
+		cache, _ := cdi.NewCache(cdi.WithSpecDirs(dir), cdi.WithAutoRefresh(false))
+		na, nb, point := c["namea"].(string), c["nameb"].(string), c["point"].(string)
+		sa, sb := variantSpec("A"), variantSpec("B")
+		sb.Kind = "other.com/class"
+		pa := filepath.Join(dir, na)
+		var errB error
+		fired := false
+		cdi.VerifPoint = func(p, arg string) {
+			// writer A is at `point`: writer B runs a complete write of its own file now
+			if p == point && !fired && (arg == pa || strings.HasPrefix(filepath.Base(arg), "spec.")) {
+				fired = true
+				errB = cache.WriteSpec(sb, nb)
+			}
+		}
+		errA := cache.WriteSpec(sa, na)
+		cdi.VerifPoint = nil
+		status := func(err error, name string, want *specs.Spec) string {
+			if err != nil {
+				return "unwritable"
+			}
+			got, rerr := cdi.ReadSpec(filepath.Join(dir, name), 0)
+			if rerr != nil {
+				return "unreadable"
+			}
+			if protoJSON(got.Spec) != protoJSON(want) {
+				return "altered"
+			}
+			return "equal"
+		}
+		obs["a"], obs["b"], obs["interleaved"] = status(errA, na, sa), status(errB, nb, sb), fired
+		c["before"], c["dst"], c["new"] = []any{}, hx(na), hx("")
+		return
 	case "trace":
 		dir, name, _, _ := prepareDir(c)
 		tr := filepath.Join(fswriteRoot, "strace.out")
